@@ -1,4 +1,5 @@
 import NimaVerif.Model.Rebuild
+import NimaVerif.Model.FragSpec
 import NimaVerif.Model.SExp
 /-!
 Driver requests for L3–L5 (container fragment):
@@ -75,6 +76,19 @@ def handle (req : SExp) : Option SExp :=
             | .tok t => .list [.atom "t", sText t]
             | .cmt t => .list [.atom "c", sText t]
             | .ws t => .list [.atom "w", sText t]))
+        | .error e => some (sErr e)
+  | .list [.atom "facts", f] =>
+    -- which theorem hypotheses hold for this input, and the decidable conclusions on its output:
+    -- (ok <orderOk> <inlineCleanB> <safe> <spacing normal form> <tokens preserved>)
+    match decFile f with
+    | none => some (.list [.atom "bad-arg"])
+    | some f =>
+      if !f.wf then some (.list [.atom "uncovered", .atom "wf"])
+      else if !f.noLeadingWs then some (.list [.atom "uncovered", .atom "leading-ws"])
+      else match f.parse with
+        | .ok s => some (.list [.atom "ok", sBool f.orderOk, sBool s.inlineCleanB,
+            sBool (safeGo false s.rebuildP), sBool (summ s.rebuildP).fileOk,
+            sBool (decide (toks s.rebuildP = f.codeTokens))])
         | .error e => some (sErr e)
   | .list [.atom "flatten", f] =>
     match decFile f with
